@@ -488,6 +488,8 @@ def label(case):
 
 
 def explore(chk, extra, mode, n_quick=2400, n_thorough=30000, limit_quick=6, limit_thorough=10):
+    import time
+    t0 = time.time()
     classes, _ = zoo()
     rng = chk.rng
     gen = Gen(rng)
@@ -560,7 +562,7 @@ def explore(chk, extra, mode, n_quick=2400, n_thorough=30000, limit_quick=6, lim
         "base_cases": base, "runs": runs, "raised": raised, "runs_by_fault": by_fault,
         "raised_by_fault": raised_by_fault, "max_validator_invocations_in_one_operation": max_calls,
         "entry_point_histogram": hist, "multi_step_inplace_commits_matching_open_findings": known,
-        "samples": samples,
+        "samples": samples, "wall_s": round(time.time() - t0, 1),
         "rule": "implementation only (probe, not Coq evaluation): zoo of classes with validated(...)/bounded(...) scalar "
                 "attributes, List/Dict/Set attributes of validated element and key types, item preparers in front of "
                 "validated types, nested and keyed spec elements with validated attributes; every helper by "
